@@ -74,6 +74,8 @@ def attach_wire(a):
          "fields": [field_wire(x) for x in a["fields"]]}
     if a["kind"] == "group":
         d.update({"ns": lib.l1(a.get("ns", b"")), "envns": lib.l1(a.get("envns", b"")), "hidden": a.get("hidden", False)})
+    elif a["kind"] == "option":
+        pass
     else:
         ex = a.get("exec")
         d.update({"name": lib.l1(a["name"]), "exec": None if ex is None else {"err": None if ex is True else lib.l1(ex)},
@@ -164,6 +166,8 @@ def attach_coq(a):
         return "(AtGroup %s (%s) (%s) %s (%s) (%s) %s)" % (path_coq(a["path"]), cs(a.get("short", b"")), cs(a.get("long", b"")),
                                                          cl([field_coq(x) for x in a["fields"]]), cs(a.get("ns", b"")), cs(a.get("envns", b"")),
                                                          cb(a.get("hidden", False)))
+    if a["kind"] == "option":
+        return "(AtOption %s %s)" % (path_coq(a["path"]), cl([field_coq(x) for x in a["fields"]]))
     ex = a.get("exec")
     exs = "ExNone" if ex is None else ("ExOk" if ex is True else "(ExErr (%s))" % cs(ex))
     us = "None" if a.get("usage") is None else "(Some (%s))" % cs(a["usage"])
@@ -343,6 +347,8 @@ def s_attach(a):
     if a["kind"] == "group":
         return (b"G" + s_path(a["path"]) + s_str(a.get("short", b"")) + s_str(a.get("long", b"")) + s_fields(a["fields"])
                 + s_str(a.get("ns", b"")) + s_str(a.get("envns", b"")) + s_bool(a.get("hidden", False)))
+    if a["kind"] == "option":
+        return b"O" + s_path(a["path"]) + s_fields(a["fields"])
     ex = a.get("exec")
     exs = b"n" if ex is None else (b"o" if ex is True else b"e" + s_str(ex))
     return (b"C" + s_path(a["path"]) + s_str(a["name"]) + s_str(a.get("short", b"")) + s_str(a.get("long", b"")) + s_fields(a["fields"])
